@@ -228,8 +228,13 @@ def finish(prop, tier, seed, t0, merged, coverage, assumptions, level='model_che
 # scratch directories (never /tmp: registered commands must not depend on it)
 # ----------------------------------------------------------------------------------------------
 
+def _main_pid():
+    return os.getppid() if mp.current_process().name != 'MainProcess' else os.getpid()
+
+
 def scratch(tag=''):
-    d = os.path.join(VERIF, '.scratch', '%d%s' % (os.getpid(), tag))
+    """a private scratch directory of this (worker) process, removed by the main process at the end of the run"""
+    d = os.path.join(VERIF, '.scratch', '%d_%d%s' % (_main_pid(), os.getpid(), tag), 'l1', 'l2', 'l3')
     os.makedirs(d, exist_ok=True)
     return d
 
@@ -243,8 +248,7 @@ def cleanup_scratch():
 
 def workdir():
     """per-worker scratch directory holding the small binary files include_bytes items refer to; becomes the cwd"""
-    main = os.getppid() if mp.current_process().name != 'MainProcess' else os.getpid()
-    d = os.path.join(VERIF, '.scratch', '%d_%d' % (main, os.getpid()))
+    d = os.path.join(VERIF, '.scratch', '%d_%d_w' % (_main_pid(), os.getpid()))
     if not os.path.isdir(d):
         os.makedirs(d, exist_ok=True)
         for n in (1, 3, 5, 8):
